@@ -24,6 +24,7 @@ func init() {
 			"F2 46 first bytes (every type with flag nibbles 0 and 2, PUBLISH with all 16) x every body of length <=5 (quick) / <=6 (thorough) over the 12-byte alphabet {00,01,02,03,04,05,0b,1f,26,7f,80,ff} with a consistent remaining length, bodies <=4 also directly to UnmarshalBinary; " +
 			"F3 every prefix of every frame of the valid corpus V (stream ends; remaining length rewritten; body prefix to UnmarshalBinary); F4 every frame of V x every length field of its field map (remaining length, property length, string/binary prefixes, varints) x {-2,-1,+1,+2,0,1,max,max-1..max-4,7f,80,ff,100,3fff,4000,7fff,8000}; F5 every other type nibble x every body of V; F6 every frame of V with one more property (each of the 27 defined identifiers, zero and non-zero value) inserted at every property boundary of every property section, lengths kept consistent (duplicates, second occurrences of other lengths, properties foreign to the packet); F7 every frame of V with every single body byte replaced by each letter of the 12-byte alphabet (quick) / by every other value (thorough). " +
 			"F8 the frames of the dense strata (every length 0..300 of every field from three bases, pairs of lengths, identifiers over a 7-bit-group alphabet, 43 filter contents x all 256 option bytes x placement). The framing-level families (F1 streams of 2 bytes, F3 stream prefixes, V itself) are also read through six further reader implementations (bufio with a 16-byte buffer, own type with Peek/Discard, LimitedReader, own type with an unrelated Len(), bytes.Buffer, strings.Reader). " +
+			"F9 one byte with a meaning of its own (first byte, connect flags, acknowledge flags, every reason-code position, subscription options, PUBLISH flags) through all 256 values inside otherwise well-formed frames, as a stream and directly to UnmarshalBinary. " +
 			"Endless streams: every prefix of 1-2 bytes followed by 80, ff or 00 for ever must make ReadPacket return within a step budget. " +
 			"Oracle: no panic; ReadPacket returns exactly one of packet / error. distinct_nontrivial = distinct inputs (content hash) that got past the fixed header (a body was decoded).",
 		Assumptions: []string{
